@@ -175,12 +175,15 @@ structure PoolInv (gs : List Group) (U : Nat → List Nat) (held : List AIdx) : 
   wf : ∀ (gid : Nat) (g : Group), gs[gid]? = some g → g.WF
   conserve : ∀ (gid i : Nat), freeAmt gs gid i + heldBy held gid i = FPU * (U gid).count i
   keys : ∀ e ∈ held, KeyOk gs e
+  /-- every free fraction is below one unit (`validate()`: `assert!(*f < FRACTIONS_PER_UNIT)`) -/
+  vals : ∀ (gid : Nat) (g : Group), gs[gid]? = some g → ∀ j, fracOf g.fracs j < FPU
 
 theorem PoolInv.perm {gs U l₁ l₂} (h : PoolInv gs U l₁) (p : l₁.Perm l₂) : PoolInv gs U l₂ where
   univ := h.univ
   wf := h.wf
   conserve := fun gid i => by rw [← heldBy_perm p]; exact h.conserve gid i
   keys := fun e he => h.keys e (p.mem_iff.mpr he)
+  vals := h.vals
 
 theorem count_le_one_of_nodup {l : List Nat} (h : l.Nodup) (i : Nat) : l.count i ≤ 1 :=
   List.nodup_iff_count.mp h i
@@ -216,6 +219,19 @@ theorem KeyOk.set {gs : List Group} {e : AIdx} {gid : Nat} {g g' : Group} (hk : 
       cases hg₀
       exact hkeys he hs
   · exact ⟨g₀, by rw [List.getElem?_set_ne (by omega)]; exact hg₀, hs⟩
+
+theorem vals_set {gs : List Group} {gid : Nat} {g g' : Group}
+    (hv : ∀ (gid : Nat) (g : Group), gs[gid]? = some g → ∀ j, fracOf g.fracs j < FPU) (hg : gs[gid]? = some g)
+    (hnew : ∀ j, fracOf g'.fracs j < FPU) :
+    ∀ (gid' : Nat) (g'' : Group), (gs.set gid g')[gid']? = some g'' → ∀ j, fracOf g''.fracs j < FPU := by
+  intro gid' g'' hg'' j
+  by_cases h : gid' = gid
+  · subst h
+    simp [lt_length_of_getElem? hg] at hg''
+    subst hg''
+    exact hnew j
+  · rw [List.getElem?_set_ne (by omega)] at hg''
+    exact hv gid' g'' hg'' j
 
 /-! ### the three primitive claim steps -/
 
@@ -260,7 +276,8 @@ theorem Prim.inv {gs acc gs' acc' U} {held : List AIdx} (p : Prim gs acc gs' acc
     have hwf := h.wf gid g hg
     have hnd : (i :: rest).Nodup := hfree ▸ hwf.1
     have hi0 : fracOf g.fracs i = 0 := hwf.2 i (by rw [hfree]; simp)
-    refine ⟨h.univ, ?_, ?_, ?_⟩
+    have hvals := vals_set (g' := { g with free := rest }) h.vals hg (fun j => h.vals gid g hg j)
+    refine ⟨h.univ, ?_, ?_, ?_, hvals⟩
     · intro gid' g' hg'
       by_cases hgid : gid' = gid
       · subst hgid
@@ -299,7 +316,15 @@ theorem Prim.inv {gs acc gs' acc' U} {held : List AIdx} (p : Prim gs acc gs' acc
     have hlt := lt_length_of_getElem? hg
     have hwf := h.wf gid g hg
     have hfi : fracOf g.fracs i = f := fracOf_of_fget hget
-    refine ⟨h.univ, ?_, ?_, ?_⟩
+    have hvals := vals_set (g' := { g with fracs := fset g.fracs i (f - fr) }) h.vals hg (fun j => by
+      show fracOf (fset g.fracs i (f - fr)) j < FPU
+      rw [fracOf_fset]
+      split
+      · have := h.vals gid g hg i
+        rw [hfi] at this
+        omega
+      · exact h.vals gid g hg j)
+    refine ⟨h.univ, ?_, ?_, ?_, hvals⟩
     · intro gid' g' hg'
       by_cases hgid : gid' = gid
       · subst hgid
@@ -351,7 +376,13 @@ theorem Prim.inv {gs acc gs' acc' U} {held : List AIdx} (p : Prim gs acc gs' acc
     have hwf := h.wf gid g hg
     have hnd : (i :: rest).Nodup := hfree ▸ hwf.1
     have hi0 : fracOf g.fracs i = 0 := hwf.2 i (by rw [hfree]; simp)
-    refine ⟨h.univ, ?_, ?_, ?_⟩
+    have hvals := vals_set (g' := { free := rest, fracs := fset g.fracs i (FPU - fr) }) h.vals hg (fun j => by
+      show fracOf (fset g.fracs i (FPU - fr)) j < FPU
+      rw [fracOf_fset]
+      split
+      · omega
+      · exact h.vals gid g hg j)
+    refine ⟨h.univ, ?_, ?_, ?_, hvals⟩
     · intro gid' g' hg'
       by_cases hgid : gid' = gid
       · subst hgid
